@@ -457,6 +457,54 @@ def pess_addzero(rng, fn, count):
     return done
 
 
+def pess_twin(rng, fn, count):
+    """operand v of a value-tolerant instruction -> v | ((v op w) ^ (v op w))  ("same": a true common subexpression,
+    value unchanged) or v | ((v op w) ^ (w op v))  ("swap": NOT a common subexpression unless op commutes) for the total
+    operators rol / ror (and wrapping sub on unsigned types): fodder and traps for common-subexpression elimination"""
+    nm, defs = Namer(fn), def_table(fn)
+    done = 0
+    safe_ops = ("and", "or", "xor", "rol", "ror")
+    for _ in range(count * 6):
+        if done >= count:
+            break
+        b = rng.choice(blocks_of(fn))
+        idxs = [k for k in range(2, len(b)) if b[k][0] in ("ret", "store", "cast")
+                or (b[k][0] == "binop" and (b[k][3] in safe_ops or (b[k][2].startswith("u") and b[k][3] in ("add", "sub", "mul"))))]
+        if not idxs:
+            continue
+        k = rng.choice(idxs)
+        i = b[k]
+        slots = [(c, j) for c, j in operand_slots(i, phi=False) if isinstance(c[j], str) and c[j].startswith("%")
+                 and isinstance(defs.get(c[j][1:], (None,))[0], str) and defs[c[j][1:]][0] in list(INT_TYPES)]
+        if not slots:
+            continue
+        c, j = rng.choice(slots)
+        v = c[j]
+        t = defs[v[1:]][0]
+        others = [c2[j2] for c2, j2 in slots if c2[j2] != v and defs[c2[j2][1:]][0] == t]
+        new = []
+        if others and rng.random() < 0.7:
+            w = rng.choice(others)
+        else:
+            kname = nm.val("tk")
+            new.append(["const", "%" + kname, t, str(rng.choice([1, 3, 5, 7]))])
+            defs[kname] = (t, b[1], new[-1])
+            w = "%" + kname
+        op = rng.choice(["rol", "ror", "rol", "ror", "sub"] if t.startswith("u") else ["rol", "ror"])
+        swap = rng.random() < 0.6
+        n1, n2, n3, n4 = nm.val("t1"), nm.val("t2"), nm.val("tx"), nm.val("tv")
+        new.append(["binop", "%" + n1, t, op, v, w])
+        new.append(["binop", "%" + n2, t, op] + ([w, v] if swap else [v, w]))
+        new.append(["binop", "%" + n3, t, "xor", "%" + n1, "%" + n2])
+        new.append(["binop", "%" + n4, t, "or", v, "%" + n3])
+        for x, ins in zip((n1, n2, n3, n4), new[-4:]):
+            defs[x] = (t, b[1], ins)
+        c[j] = "%" + n4
+        b[k:k] = new
+        done += 1
+    return done
+
+
 def ref_wrap(t, v):
     bits = _size(t) * 8
     v %= 1 << bits
@@ -736,9 +784,9 @@ def pess_expose(rng, mod, fn, count):
     return done
 
 
-def pessimize(rng, mod, addzero=3, cjump=2, demote=2, demote_phi=1, constexpr=3, punstore=2, expose=1):
+def pessimize(rng, mod, addzero=3, cjump=2, demote=2, demote_phi=1, constexpr=3, punstore=2, expose=1, twin=2):
     """in place; returns counts"""
-    counts = {"addzero": 0, "cjump": 0, "demote": 0, "demote_phi": 0, "constexpr": 0, "punstore": 0, "expose": 0}
+    counts = {"addzero": 0, "cjump": 0, "demote": 0, "demote_phi": 0, "constexpr": 0, "punstore": 0, "expose": 0, "twin": 0}
     for fn in funcs_of(mod):
         if expose:
             counts["expose"] += pess_expose(rng, mod, fn, rng.randint(0, expose))
@@ -753,6 +801,8 @@ def pessimize(rng, mod, addzero=3, cjump=2, demote=2, demote_phi=1, constexpr=3,
             counts["cjump"] += pess_cjump(rng, fn, rng.randint(0, cjump))
         if constexpr:
             counts["constexpr"] += pess_constexpr(rng, fn, rng.randint(0, constexpr))
+        if twin:
+            counts["twin"] += pess_twin(rng, fn, rng.randint(0, twin))
         if addzero:
             counts["addzero"] += pess_addzero(rng, fn, rng.randint(0, addzero))
     return counts
